@@ -26,6 +26,10 @@ pub struct Trial {
     pub plan: FaultPlan,
     pub first_keyframe: usize,
     pub post: Vec<PostOp>,
+    /// `Some(per-mille of the stream length)`: the failing call is `render_loading_frame` on a
+    /// stream fed only up to that point; the rest is fed after the fault is lifted
+    #[serde(default)]
+    pub partial_cut: Option<u32>,
 }
 
 #[derive(Clone, Debug, Serialize, Deserialize)]
@@ -128,7 +132,8 @@ mod imp {
                     _ => FaultPlan::FailFrom(rng.below(100_000) as usize),
                 }
             };
-            trials.push(Trial { plan, first_keyframe: rng.below(nkey_guess) as usize, post: post_ops(&mut rng, nkey_guess as usize) });
+            let partial_cut = if !exhaustive_k && !fixture && rng.chance(1, 4) { Some(if rng.chance(2, 3) { 600 + rng.below(400) as u32 } else { rng.below(1000) as u32 }) } else { None };
+            trials.push(Trial { plan, first_keyframe: rng.below(nkey_guess) as usize, post: post_ops(&mut rng, nkey_guess as usize), partial_cut });
         }
         Scenario { case, corrupt, shuttle_pool: !fixture && rng.chance(1, 3), trials, exhaustive_k }
     }
@@ -224,8 +229,47 @@ mod imp {
                         Some(p) => JxlThreadPool::verif(p.clone() as Arc<dyn jxl_threadpool::verif::VerifPool>),
                         None => JxlThreadPool::none(),
                     };
-                    // the stream is fed completely and fault-free first: C08 is about a failing *render*
-                    let Ok(mut img) = load_chunked(&bytes, &ChunkSchedule::whole(bytes.len()), Some(tracker.clone()), pool) else { return };
+                    // the stream is fed fault-free first (completely, or up to the cut for a partial
+                    // trial): C08 is about a failing *render*
+                    let cut = trial.partial_cut.map(|pm| (bytes.len() as u64 * pm as u64 / 1000) as usize);
+                    let fed = cut.unwrap_or(bytes.len());
+                    let mut u = new_uninit(&LoadOpts { pool, tracker: Some(tracker.clone()), force_wide: false });
+                    if u.feed_bytes(&bytes[..fed]).is_err() {
+                        return;
+                    }
+                    let Ok(jxl_oxide::InitializeResult::Initialized(mut img)) = u.try_init() else { return };
+                    if let Some(cut) = cut {
+                        // fault during the progressive render of the partially loaded stream
+                        let mut expanded = 0usize;
+                        if let Some(k) = k {
+                            tracker.verif_fail_from(tracker.verif_allocs() + k);
+                        } else if let Some(pm) = budget_pm {
+                            let allow = (reference.render_peaks[0] as u64 * pm as u64 / 1000) as usize;
+                            let left = tracker.verif_bytes_left();
+                            if left > allow && tracker.shrink_limit(left - allow).is_ok() {
+                                expanded = left - allow;
+                            }
+                        }
+                        let first = img.render_loading_frame().is_ok();
+                        log.lock().unwrap().push((if first { "loading_render_ok".into() } else { "loading_render_failed".into() }, RenderObs::Err(crate::harness::ErrClass::Other), usize::MAX));
+                        tracker.verif_fail_from(usize::MAX);
+                        if expanded > 0 {
+                            tracker.expand_limit(expanded);
+                        }
+                        let _ = img.render_loading_frame();
+                        if img.feed_bytes(&bytes[cut..]).is_err() {
+                            return;
+                        }
+                        let _ = img.finalize();
+                        for k in 0..img.num_loaded_keyframes() {
+                            let o = RenderObs::from_result(&img.render_frame(k));
+                            log.lock().unwrap().push(("render_after_completion".into(), o, k));
+                        }
+                        if let Some(p) = &spool {
+                            p.join_detached();
+                        }
+                        return;
+                    }
                     let nkey = img.num_loaded_keyframes();
                     if nkey == 0 {
                         return;
@@ -280,12 +324,17 @@ mod imp {
                 let done: Vec<String> = entries.iter().map(|(n, o, k)| format!("{n}({k})={}", o.short())).collect();
                 return Err(failure_to_violation(seed, sc, f, &format!("{ctx}; returned so far: [{}]", done.join(", "))));
             }
-            let first_failed = entries.first().map(|e| !e.1.is_ok()).unwrap_or(false);
-            stats.fault(match trial.plan {
+            let partial = trial.partial_cut.is_some();
+            if partial {
+                stats.fault(if entries.first().map(|e| e.0 == "loading_render_failed").unwrap_or(false) { "partial:loading_render_failed" } else { "partial:loading_render_survived" });
+            }
+            let entries: Vec<_> = entries.into_iter().filter(|e| e.2 != usize::MAX).collect();
+            let first_failed = partial || entries.first().map(|e| !e.1.is_ok()).unwrap_or(false);
+            if !partial { stats.fault(match trial.plan {
                 FaultPlan::FailFrom(_) => if first_failed { "alloc_fail_from_k:render_failed" } else { "alloc_fail_from_k:render_survived" },
                 FaultPlan::Budget(_) => if first_failed { "budget:render_failed" } else { "budget:render_survived" },
                 FaultPlan::CorruptGroup => "corrupt_group",
-            });
+            }); }
             let mut later_ok = false;
             for (name, o, kidx) in &entries {
                 if let RenderObs::Ok { .. } = o {
